@@ -84,7 +84,7 @@ Qed.
 Lemma ins_exp_perm x l : Permutation (ins_exp x l) (x :: l).
 Proof.
   induction l as [|y t IH]; cbn [ins_exp]; [apply Permutation_refl|].
-  destruct (dexp y <=? dexp x); [|apply Permutation_refl].
+  destruct (dexp y <? dexp x); [|apply Permutation_refl].
   apply (Permutation_trans (perm_skip y IH)). apply perm_swap.
 Qed.
 
